@@ -1,129 +1,40 @@
-// drv_reqcodec.cpp — correspondence harness for the REQ serialization (family reqcodec: C09, C10, C11); the sketch
-// operations are those of drv_req.cpp (same protocol, same model ReqDefs.v), restricted to arithmetic items.
-// Three instantiations share one operation protocol (the model is over integers with the usual order):
-//   kind 0: req_sketch<int64_t>
-//   kind 1: req_sketch<double> fed integer values (plus NaN updates / NaN split points)
-//   kind 3: req_sketch<float> fed integer values (|v| < 2^24)
-// Codec operations: 30 r -> R = serialize() bytes, F = [stream form identical, advertised size, size, 5-byte header form ok];
-//   31 r r2 / 32 r r2 -> r := deserialize(serialize(r2)) through the bytes / stream reader (F of 32: stream consumed exactly);
-//   33 r kind bytes.. / 34 r kind bytes.. -> r := deserialize(bytes) through the bytes / stream reader (F of 34: stream position,
-//   -1 when the stream is in a failed state). Every compactor the readers construct draws a coin (E line).
-// Only the public API is used (no private members are read).
-#include "common.hpp"
-#include "hooksrc.hpp"
-#include "req_sketch.hpp"
-#include <cmath>
-#include <limits>
-#include <algorithm>
+// drv_reqcodec.cpp — correspondence harness for the REQ serialization (family reqcodec: C09, C10, C11).
+// The sketch operations are NOT copied: harness/drv_req.cpp is included (its main renamed), so every operation of the
+// protocol (new, update, merge, observe, rank with the published bounds, quantile, CDF, view, copy, ...) is the shared
+// handler of the req family, for kinds 0 (int64) and 1 (double).  This file adds
+//   kind 3: req_sketch<float> fed integer values (|v| < 2^24), kept in its own register map; the per-sketch operations go
+//           through drv_req.cpp's templates run_op<K> (same output format), only new / merge / copy / NaN are written here;
+//   the codec operations (kinds 0, 1, 3):
+//     30 r        -> R = serialize() bytes, F = [stream form identical, advertised size, size, 5-byte header form ok]
+//     31 r r2 / 32 r r2 -> r := deserialize(serialize(r2)) through the bytes / stream reader (F of 32: stream consumed exactly)
+//     33 r kind bytes.. / 34 r kind bytes.. -> r := deserialize(bytes) through the bytes / stream reader
+//                    (F of 34: stream position, -1 when the stream is in a failed state).
+//   Every compactor the readers construct draws a coin (E line).
+#define main drv_req_main
+#include "drv_req.cpp"
+#undef main
 #include <sstream>
 #include <cstring>
-using namespace datasketches;
-using vh::I; using vh::Line; using vh::Out;
 
-struct K0 {
-  typedef req_sketch<int64_t> sk_t; typedef int64_t item_t;
-  static item_t enc(I v) { return (int64_t)v; }
-  static I dec(const item_t& x) { return (I)x; }
-};
-struct K1 {
-  typedef req_sketch<double> sk_t; typedef double item_t;
-  static item_t enc(I v) { return (double)(int64_t)v; }
-  static I dec(const item_t& x) { return (I)(int64_t)x; }
-};
-struct K2 {
+struct K3 {
   typedef req_sketch<float> sk_t; typedef float item_t;
   static item_t enc(I v) { return (float)(int64_t)v; }
   static I dec(const item_t& x) { return (I)(int64_t)x; }
 };
+static std::map<long, std::unique_ptr<K3::sk_t>> fregs;        // registers holding float sketches
+static std::unique_ptr<K3::sk_t>* cur3 = nullptr;              // the float sketch drv_req's templates operate on
+template<> struct Sel<K3> { static std::unique_ptr<K3::sk_t>& p(Reg&) { return *cur3; } };
 
-struct Reg {
-  int kind;
-  std::unique_ptr<K0::sk_t> s0; std::unique_ptr<K1::sk_t> s1; std::unique_ptr<K2::sk_t> s2;
-};
-static std::map<long, Reg> regs;
-
-static Reg& get(I r) {
-  auto it = regs.find((long)r);
-  if (it == regs.end()) throw std::invalid_argument("no such register");
+static bool is_f(I r) { return fregs.count((long)r) != 0; }
+static std::unique_ptr<K3::sk_t>& getf(I r) {
+  auto it = fregs.find((long)r);
+  if (it == fregs.end()) throw std::invalid_argument("no such register");
   return it->second;
 }
-template<typename K> struct Sel;
-template<> struct Sel<K0> { static std::unique_ptr<K0::sk_t>& p(Reg& r) { return r.s0; } };
-template<> struct Sel<K1> { static std::unique_ptr<K1::sk_t>& p(Reg& r) { return r.s1; } };
-template<> struct Sel<K2> { static std::unique_ptr<K2::sk_t>& p(Reg& r) { return r.s2; } };
+static int kind_of(I r) { if (is_f(r)) return 3; return get(r).kind; }
+static void drop(I r) { regs.erase((long)r); fregs.erase((long)r); }
 
-static I numer(double rank, uint64_t n) { return (I)std::llround(rank * (double)n); }
-
-template<typename K> static void run_op(int op, Reg& reg, const Line& t, Out& o) {
-  typedef typename K::sk_t S; typedef typename K::item_t T;
-  S& s = *Sel<K>::p(reg);
-  switch (op) {
-  case 2: s.update(K::enc(t.at(2))); o.R(1); break;
-  case 5: { // observe
-    o.R((I)s.get_n()); o.R((I)s.get_num_retained()); o.R(s.is_empty() ? 1 : 0); o.R(s.is_estimation_mode() ? 1 : 0);
-    o.R((I)s.get_k()); o.R(s.is_HRA() ? 1 : 0);
-    if (!s.is_empty()) { o.R(K::dec(s.get_min_item())); o.R(K::dec(s.get_max_item())); }
-    // first walk the iterator WITHOUT dereferencing it, at most num_retained + 1 steps: an iterator that does not
-    // stop after num_retained steps is reported by its length instead of being followed into foreign memory
-    const uint64_t nret = s.get_num_retained();
-    uint64_t steps = 0;
-    for (auto i = s.begin(); i != s.end() && steps <= nret; ++i) ++steps;
-    if (steps != nret) { o.R((I)steps); break; }
-    std::vector<std::pair<I, I>> it;
-    for (auto i = s.begin(); i != s.end(); ++i) { auto p = *i; it.push_back(std::make_pair(K::dec(p.first), (I)p.second)); }
-    std::sort(it.begin(), it.end());
-    o.R((I)it.size());
-    for (auto& p : it) { o.R(p.first); o.R(p.second); }
-    break; }
-  case 6: { // rank
-    T x = K::enc(t.at(2));
-    double ri = s.get_rank(x, true), re = s.get_rank(x, false);
-    o.R(numer(ri, s.get_n())); o.R(numer(re, s.get_n())); o.R(s.is_estimation_mode() ? 1 : 0);
-    o.Fd(ri); o.Fd(re);
-    // the published bounds around the estimate (1..3 standard deviations)
-    for (uint8_t sd = 1; sd <= 3; ++sd) { o.Fd(s.get_rank_lower_bound(ri, sd)); o.Fd(s.get_rank_upper_bound(ri, sd)); }
-    break; }
-  case 7: { // quantile at rank j / 2^t
-    double rank = (double)(int64_t)t.at(2) / (double)((uint64_t)1 << (unsigned)t.at(3));
-    T a = s.get_quantile(rank, true); T b = s.get_quantile(rank, false);
-    o.R(K::dec(a)); o.R(K::dec(b)); o.R(s.is_estimation_mode() ? 1 : 0); break; }
-  case 8: { // CDF / PMF
-    std::vector<T> sp; for (size_t i = 2; i < t.size(); ++i) sp.push_back(K::enc(t[i]));
-    auto ci = s.get_CDF(sp.data(), (uint32_t)sp.size(), true);
-    auto ce = s.get_CDF(sp.data(), (uint32_t)sp.size(), false);
-    auto pi = s.get_PMF(sp.data(), (uint32_t)sp.size(), true);
-    auto pe = s.get_PMF(sp.data(), (uint32_t)sp.size(), false);
-    for (double d : ci) o.R(numer(d, s.get_n()));
-    for (double d : ce) o.R(numer(d, s.get_n()));
-    o.F((I)ci.size());
-    for (double d : ci) o.Fd(d);
-    for (double d : ce) o.Fd(d);
-    for (double d : pi) o.Fd(d);
-    for (double d : pe) o.Fd(d);
-    break; }
-  case 10: { // sorted view, ties collapsed: (item, cumulative weight at the end of its run)
-    auto v = s.get_sorted_view();
-    std::vector<std::pair<I, I>> g;
-    for (auto i = v.begin(); i != v.end(); ++i) {
-      auto p = *i; I x = K::dec(p.first);
-      if (!g.empty() && g.back().first == x) g.back().second = (I)p.second; else g.push_back(std::make_pair(x, (I)p.second));
-    }
-    o.R(g.empty() ? 0 : g.back().second);
-    for (auto& p : g) { o.R(p.first); o.R(p.second); }
-    break; }
-  default: o.R(-2);
-  }
-}
-
-template<typename K> static void merge_op(Reg& a, Reg& b, bool rvalue) {
-  typename K::sk_t& x = *Sel<K>::p(a); typename K::sk_t& y = *Sel<K>::p(b);
-  if (rvalue) x.merge(std::move(y)); else x.merge(y);
-}
-
-
-template<typename K> static void ser_op(Reg& reg, Out& o) {
-  typedef typename K::sk_t S;
-  S& s = *Sel<K>::p(reg);
+template<typename S> static void ser_out(const S& s, Out& o) {
   auto b = s.serialize();
   for (auto x : b) o.R((I)x);
   std::ostringstream os(std::ios::binary); s.serialize(os); const std::string str = os.str();
@@ -135,116 +46,92 @@ template<typename K> static void ser_op(Reg& reg, Out& o) {
   for (size_t i = 0; hok && i < b.size(); ++i) hok = h[i + 5] == b[i];
   o.F(hok ? 1 : 0);
 }
-template<typename K> static void deser_bytes(Reg& dst, const uint8_t* p, size_t n) {
-  typedef typename K::sk_t S;
+template<typename S> static S* from_bytes(const uint8_t* p, size_t n) {
   // exact-size heap copy: reads past the image are seen by ASan
   std::unique_ptr<uint8_t[]> buf(new uint8_t[n ? n : 1]); if (n) std::memcpy(buf.get(), p, n);
-  Sel<K>::p(dst).reset(new S(S::deserialize(buf.get(), n)));
+  return new S(S::deserialize(buf.get(), n));
 }
-template<typename K> static long deser_stream(Reg& dst, const std::string& img) {
-  typedef typename K::sk_t S;
+template<typename S> static S* from_stream(const std::string& img, long& pos) {
   std::istringstream is(img, std::ios::binary);
-  Sel<K>::p(dst).reset(new S(S::deserialize(is)));
-  return is.good() ? (long)is.tellg() : -1;
+  S* r = new S(S::deserialize(is));
+  pos = is.good() ? (long)is.tellg() : -1;
+  return r;
 }
-template<typename K> static void roundtrip_op(int op, Reg& g, Reg& b, Out& o) {
-  typedef typename K::sk_t S;
-  S& s = *Sel<K>::p(b);
-  if (op == 31) { auto v = s.serialize(); deser_bytes<K>(g, v.data(), v.size()); }
-  else {
-    std::ostringstream os(std::ios::binary); s.serialize(os); const std::string str = os.str();
-    long pos = deser_stream<K>(g, str + "XYZ");
-    o.F(pos == (long)str.size() ? 1 : 0);
-  }
+// place a freshly read sketch of the given kind into register r
+template<typename S> struct Put;
+template<> struct Put<K0::sk_t> { static void at(I r, K0::sk_t* s) { drop(r); Reg g; g.kind = 0; g.s0.reset(s); regs[(long)r] = std::move(g); } };
+template<> struct Put<K1::sk_t> { static void at(I r, K1::sk_t* s) { drop(r); Reg g; g.kind = 1; g.s1.reset(s); regs[(long)r] = std::move(g); } };
+template<> struct Put<K3::sk_t> { static void at(I r, K3::sk_t* s) { drop(r); fregs[(long)r].reset(s); } };
+
+template<typename S> static void read_op(int op, I r, const std::vector<uint8_t>& v, bool garbage, Out& o) {
+  if (op == 31 || op == 33) { Put<S>::at(r, from_bytes<S>(v.data(), v.size())); return; }
+  std::string img((const char*)v.data(), v.size());
+  long pos = -1;
+  S* s = from_stream<S>(garbage ? img + "XYZ" : img, pos);
+  Put<S>::at(r, s);
+  if (op == 32) o.F(pos == (long)img.size() ? 1 : 0); else o.F((I)pos);
 }
+template<typename S> static std::vector<uint8_t> bytes_of_sketch(const S& s) { auto b = s.serialize(); return std::vector<uint8_t>(b.begin(), b.end()); }
 
-static bool is_hra(Reg& g) { return g.kind == 0 ? g.s0->is_HRA() : g.kind == 1 ? g.s1->is_HRA() : g.s2->is_HRA(); }
-
-static void handler(const Line& t, Out& o) {
+static void codec_handler(const Line& t, Out& o) {
   vh::install_source(o);
-  if (vh::source_op(t, o)) return;
-  int op = (int)t.at(0);
+  const int op = (int)t.at(0);
   switch (op) {
-  case 1: { // new r kind k hra
-    int kind = (int)t.at(2); I k = t.at(3); bool hra = t.at(4) != 0;
-    if (k < 0 || k > 65535) throw std::invalid_argument("k does not fit uint16_t");
-    Reg g; g.kind = kind;
-    if (kind == 0) g.s0.reset(new K0::sk_t((uint16_t)k, hra));
-    else if (kind == 1) g.s1.reset(new K1::sk_t((uint16_t)k, hra));
-    else if (kind == 3) g.s2.reset(new K2::sk_t((uint16_t)k, hra));
-    else throw std::invalid_argument("kind");
-    regs[(long)t.at(1)] = std::move(g);
-    o.R(1); break; }
-  case 3: { // NaN update
-    Reg& g = get(t.at(1));
-    if (g.kind == 1) g.s1->update(std::numeric_limits<double>::quiet_NaN());
-    if (g.kind == 3) g.s2->update(std::numeric_limits<float>::quiet_NaN());
-    o.R(1); break; }
+  case 1: { // new r kind k hra: floats here, everything else in drv_req.cpp
+    if ((int)t.at(2) != 3) { handler(t, o); fregs.erase((long)t.at(1)); return; }
+    I k = t.at(3); if (k < 0 || k > 65535) throw std::invalid_argument("k does not fit uint16_t");
+    std::unique_ptr<K3::sk_t> s(new K3::sk_t((uint16_t)k, t.at(4) != 0));
+    drop(t.at(1)); fregs[(long)t.at(1)] = std::move(s);
+    o.R(1); return; }
+  case 3: if (is_f(t.at(1))) { getf(t.at(1))->update(std::numeric_limits<float>::quiet_NaN()); o.R(1); return; } break;
   case 4: { // merge r r2 mode
+    const bool fa = is_f(t.at(1)), fb = is_f(t.at(2));
+    if (!fa && !fb) break;
     if (t.at(1) == t.at(2)) throw std::invalid_argument("self merge not exercised");
-    Reg& a = get(t.at(1)); Reg& b = get(t.at(2)); bool rv = t.at(3) == 1;
-    if (a.kind != b.kind) throw std::invalid_argument("kinds differ");
-    if (is_hra(a) != is_hra(b)) { // the sketch must refuse by itself; nothing may have changed
+    if (fa != fb) { get(fa ? t.at(2) : t.at(1)); throw std::invalid_argument("kinds differ"); }
+    auto& a = getf(t.at(1)); auto& b = getf(t.at(2)); const bool rv = t.at(3) == 1;
+    if (a->is_HRA() != b->is_HRA()) {
       bool threw = false;
-      try { if (a.kind == 0) merge_op<K0>(a, b, false); else if (a.kind == 1) merge_op<K1>(a, b, false); else merge_op<K2>(a, b, false); }
-      catch (const std::exception&) { threw = true; }
+      try { a->merge(*b); } catch (const std::exception&) { threw = true; }
       if (threw) throw std::invalid_argument("refused");
-      o.R(2); break; // a mixed-mode merge was accepted
+      o.R(2); return;
     }
-    if (a.kind == 0) merge_op<K0>(a, b, rv); else if (a.kind == 1) merge_op<K1>(a, b, rv); else merge_op<K2>(a, b, rv);
-    if (rv) regs.erase((long)t.at(2));
-    o.R(1); break; }
+    if (rv) a->merge(std::move(*b)); else a->merge(*b);
+    if (rv) fregs.erase((long)t.at(2));
+    o.R(1); return; }
   case 13: { // r := copy of r2
-    Reg& b = get(t.at(2)); Reg g; g.kind = b.kind;
-    if (b.kind == 0) g.s0.reset(new K0::sk_t(*b.s0));
-    else if (b.kind == 1) g.s1.reset(new K1::sk_t(*b.s1));
-    else g.s2.reset(new K2::sk_t(*b.s2));
-    regs[(long)t.at(1)] = std::move(g);
-    o.R(1); break; }
-  case 20: { // the machine's binary32 arithmetic on the section-size schedule (checks the model's float32 arithmetic;
-             // the formulas are those of req_compactor::ensure_enough_sections / nearest_even)
-    I k = t.at(1);
-    if (k < 4 || k > 65535) throw std::invalid_argument("k");
-    volatile float raw = (float)(uint32_t)k; uint32_t sz = (uint32_t)k;
-    for (int i = 0; i < 64; ++i) {
-      o.R(vh::fbits(raw)); o.R((I)sz);
-      volatile float two = 2.0f;
-      volatile float ssr = raw / sqrtf(two);
-      const uint32_t ne = static_cast<uint32_t>(round(ssr / 2)) << 1;
-      if (ne < 4) break;
-      raw = ssr; sz = ne;
-    }
-    break; }
+    if (!is_f(t.at(2))) { handler(t, o); fregs.erase((long)t.at(1)); return; }
+    std::unique_ptr<K3::sk_t> c(new K3::sk_t(*getf(t.at(2))));
+    drop(t.at(1)); fregs[(long)t.at(1)] = std::move(c);
+    o.R(1); return; }
   case 30: { // serialize
-    Reg& g = get(t.at(1));
-    if (g.kind == 0) ser_op<K0>(g, o); else if (g.kind == 1) ser_op<K1>(g, o); else ser_op<K2>(g, o);
-    break; }
+    const int kind = kind_of(t.at(1));
+    if (kind == 0) ser_out(*get(t.at(1)).s0, o); else if (kind == 1) ser_out(*get(t.at(1)).s1, o);
+    else if (kind == 3) ser_out(*getf(t.at(1)), o); else throw std::invalid_argument("codec: kind");
+    return; }
   case 31: case 32: { // r := deserialize(serialize(r2)), bytes / stream reader
-    Reg& b = get(t.at(2)); Reg g; g.kind = b.kind;
-    if (b.kind == 0) roundtrip_op<K0>(op, g, b, o); else if (b.kind == 1) roundtrip_op<K1>(op, g, b, o); else roundtrip_op<K2>(op, g, b, o);
-    regs[(long)t.at(1)] = std::move(g);
-    o.R(1); break; }
+    const int kind = kind_of(t.at(2));
+    if (kind == 0) read_op<K0::sk_t>(op, t.at(1), bytes_of_sketch(*get(t.at(2)).s0), true, o);
+    else if (kind == 1) read_op<K1::sk_t>(op, t.at(1), bytes_of_sketch(*get(t.at(2)).s1), true, o);
+    else if (kind == 3) read_op<K3::sk_t>(op, t.at(1), bytes_of_sketch(*getf(t.at(2))), true, o);
+    else throw std::invalid_argument("codec: kind");
+    o.R(1); return; }
   case 33: case 34: { // r := deserialize(bytes) as kind, bytes / stream reader
-    int kind = (int)t.at(2); if (kind != 0 && kind != 1 && kind != 3) throw std::invalid_argument("kind");
-    Reg g; g.kind = kind;
+    const int kind = (int)t.at(2);
     std::vector<uint8_t> v; for (size_t i = 3; i < t.size(); ++i) v.push_back((uint8_t)t[i]);
-    if (op == 33) {
-      if (kind == 0) deser_bytes<K0>(g, v.data(), v.size()); else if (kind == 1) deser_bytes<K1>(g, v.data(), v.size()); else deser_bytes<K2>(g, v.data(), v.size());
-    } else {
-      const std::string img((const char*)v.data(), v.size());
-      long pos = kind == 0 ? deser_stream<K0>(g, img) : kind == 1 ? deser_stream<K1>(g, img) : deser_stream<K2>(g, img);
-      o.F((I)pos);
+    if (kind == 0) read_op<K0::sk_t>(op, t.at(1), v, false, o); else if (kind == 1) read_op<K1::sk_t>(op, t.at(1), v, false, o);
+    else if (kind == 3) read_op<K3::sk_t>(op, t.at(1), v, false, o); else throw std::invalid_argument("kind");
+    o.R(1); return; }
+  default:
+    if (t.size() > 1 && op != 97 && op != 98 && op != 99 && op != 20 && is_f(t.at(1))) { // per-sketch operation on a float register
+      cur3 = &getf(t.at(1)); Reg none; none.kind = 3;
+      run_op<K3>(op, none, t, o);
+      return;
     }
-    regs[(long)t.at(1)] = std::move(g);
-    o.R(1); break; }
-  case 97: o.R(1); o.F((I)vh::source().scripted.size()); break;
-  default: {
-    Reg& g = get(t.at(1));
-    if (g.kind == 0) run_op<K0>(op, g, t, o); else if (g.kind == 1) run_op<K1>(op, g, t, o); else run_op<K2>(op, g, t, o);
   }
-  }
+  handler(t, o);
 }
 
 int main(int argc, char** argv) {
-  return vh::run_main(argc, argv, [] { regs.clear(); vh::source().seed(0); }, handler);
+  return vh::run_main(argc, argv, [] { regs.clear(); fregs.clear(); vh::source().seed(0); }, codec_handler);
 }
